@@ -185,10 +185,17 @@ class C08(ProgProp):
             if isinstance(oc[1], HarnessError):
                 raise oc[1]
             same = (("V", repr(oc[1])) if oc[0] == "V" else ("E", errtok(oc[1])), Bc.canon_trace())
-            if isinstance(oc[1], (IndexError, KeyError, AttributeError, NameError)) or isinstance(o[1], (IndexError, KeyError, AttributeError, NameError)):
-                import traceback
-                e = oc[1] if isinstance(oc[1], Exception) else o[1]
-                raise HarnessError("unexpected %r\n%s" % (e, "".join(traceback.format_exception(type(e), e, e.__traceback__))[-1800:]))
+            for who, oo in (("computation #%d" % (i + 1), o), ("the canary after computation #%d" % (i + 1), oc)):
+                e = oo[1]
+                if oo[0] == "E" and isinstance(e, (IndexError, KeyError, AttributeError, NameError, UnboundLocalError)):
+                    import traceback
+                    frames = traceback.extract_tb(e.__traceback__)
+                    where = frames[-1].filename if frames else ""
+                    if "asynq/" in where and "simq/" not in where:
+                        out.append(("internal-error", "%s ended with %s raised inside asynq's own code (%s:%s), not by a task, future, flush or context"
+                                    % (who, type(e).__name__, where.rsplit("/", 1)[-1], frames[-1].lineno)))
+                    else:
+                        raise HarnessError("unexpected %r\n%s" % (e, "".join(traceback.format_exception(type(e), e, e.__traceback__))[-1800:]))
             for (p, c, m, n) in Bc.violations:
                 if p == "C08":
                     out.append((c, "canary after computation #%d: %s" % (i + 1, m)))
